@@ -64,7 +64,11 @@ def accepted_configs(ctx, case):
     from jsonargparse import ArgumentError
 
     recipe = case["recipe"]
-    p = P.build(recipe)
+    try:
+        p = P.build(recipe)
+    except Exception as ex:  # noqa  a hint of the grammar that cannot even be declared: C02 reports it (conforming value rejected)
+        ctx.cls(f"escape:parser-build:{type(ex).__name__}@{innermost_pkg_frame(ex)}")
+        return None, []
     out = []
     try:
         out.append(("object", p.parse_object(P.as_object(copy.deepcopy(case["values"]), case["subcommand"])), None))
